@@ -414,3 +414,13 @@ def run(ctx, eng):
            % sorted(reads_ack), node=f6.node)
     ctx.assume('the full ordering semantics over histories beyond these '
                'clauses are not decided')
+    cm.include(ctx, eng, 'C25',
+               lambda o: o.rule == 'FLOW.codec' and 'server' in o.desc,
+               'the settings a client hands over in HTTP2-Settings are a '
+               'received SETTINGS frame like any other: applied through the '
+               'same path, so that every cached copy follows')
+    cm.include(ctx, eng, 'C04',
+               lambda o: o.rule == 'FLOW.delta' and 'settings' in o.where,
+               'an acknowledged local INITIAL_WINDOW_SIZE is enforced on '
+               'every existing stream from that moment (window and maximum '
+               'move by exactly the delta)')
